@@ -142,9 +142,22 @@ pub fn backlinks(occ: &[LinkOcc]) -> (BTreeMap<String, BTreeSet<(String, usize)>
 }
 
 /// plain text of the first heading if the note starts with one
+/// The first block that is part of the note as iwe reads it: raw HTML blocks are dropped, and so is
+/// a quote that holds nothing besides them.
+fn first_real_block(blocks: &[SBlock]) -> Option<&SBlock> {
+    fn blank(b: &SBlock) -> bool {
+        match b.kind {
+            BKind::Html => true,
+            BKind::Quote => b.children.iter().all(blank),
+            _ => false,
+        }
+    }
+    blocks.iter().find(|b| !blank(b))
+}
+
 pub fn title_of(text: &str) -> Option<String> {
     let s = scan(text);
-    match s.blocks.first() {
+    match first_real_block(&s.blocks) {
         Some(b) if matches!(b.kind, BKind::Heading(_)) => Some(plain_text_raw(&b.inlines)),
         _ => None,
     }
@@ -159,7 +172,7 @@ pub fn plain_text_raw(inl: &[SInline]) -> String {
 /// and would its plain text need escaping when written as link text (KF-ESCAPE)?
 pub fn title_flags(text: &str) -> (bool, bool) {
     let s = scan(text);
-    match s.blocks.first() {
+    match first_real_block(&s.blocks) {
         Some(b) if matches!(b.kind, BKind::Heading(_)) => {
             let mut ls = vec![];
             links_of(&b.inlines, &mut ls);
